@@ -189,20 +189,29 @@ Proof.
   cbn [Nat.add]. exact F.
 Qed.
 
-(* (2) a recorded call of zero duration (possible with the `trace` trigger) gets its read AND diff events
-   twice: ENTRY and EXIT time coincide, so both passes emit every event of the frame *)
+(* (2) a recorded call of zero duration (ENTRY and EXIT time coincide; always recorded since the threshold test
+   is >=): each pass of record_ret_stack emits only the events its own hook stored (491a61f), so every event
+   appears once.  Selecting by time stamp alone, as before, both passes emitted every event of the frame. *)
 Definition zero_cfg : xcfg :=
-  {| xb := mkcfg [(0, {| t_filter := None; t_depth := None; t_time := None; t_size := None; t_trace_on := false;
-                         t_trace_off := false; t_trace := true; t_caller := false; t_loc := None; t_finish := false |})]
-                 false false 1024 0 1024 [] PG;
-     read_of := fun a => if a =? 0 then TRIGGER_READ_PAGE_FAULT else 0;
-     wp_cpu := false; wp_var := false; pmu_ok := false |}.
-Lemma zero_duration_read_twice_refuted :
+  xplain 0 1024 1024 PG (fun a => if a =? 0 then TRIGGER_READ_PAGE_FAULT else 0) false.
+Lemma zero_duration_read_once :
   map (fun i => match i with IR r => (0, r_time r) | IE e => (e_id e, e_time e) end)
       (xout (snd (xexec zero_cfg [XEnter 0 100 (o_pf_only 5); XLeave 100 (o_pf_only 9)] xstart))) =
-  [(0, 100); (EVENT_ID_READ_PAGE_FAULT, 100); (EVENT_ID_DIFF_PAGE_FAULT, 100);
-   (EVENT_ID_READ_PAGE_FAULT, 100); (EVENT_ID_DIFF_PAGE_FAULT, 100); (0, 100)].
+  [(0, 100); (EVENT_ID_READ_PAGE_FAULT, 100); (EVENT_ID_DIFF_PAGE_FAULT, 100); (0, 100)].
 Proof. vm_compute. reflexivity. Qed.
+Lemma take_eq_same t l : Forall (fun e => e_time e = t) l -> take_eq t l = l.
+Proof. induction 1 as [|e r He _ IH]; [reflexivity|]. cbn [take_eq]. rewrite He, N.eqb_refl, IH. reflexivity. Qed.
+Lemma filter_time_same t l : Forall (fun e => e_time e = t) l -> filter (fun e => e_time e =? t) l = l.
+Proof. induction 1 as [|e r He _ IH]; [reflexivity|]. cbn [filter]. rewrite He, N.eqb_refl, IH. reflexivity. Qed.
+Lemma zero_duration_legacy_refuted C a t o0 o1 :
+  let evs := reads C a t o0 ++ diffs C a t o0 o1 in
+  legacy_entry_events t evs = evs /\ legacy_exit_events t evs = evs.
+Proof.
+  cbn zeta. assert (F : Forall (fun e => e_time e = t) (reads C a t o0 ++ diffs C a t o0 o1)).
+  { rewrite reads_eq, diffs_eq. apply Forall_app. split; apply Forall_forall; intros e He;
+      apply in_map_iff in He; destruct He as (k & <- & _); reflexivity. }
+  split; [apply take_eq_same|apply filter_time_same]; exact F.
+Qed.
 
 (* non-vacuity of the read/diff theorem: a concrete run with a negative difference (wraps mod 2^64) *)
 Definition ex_cfg : xcfg :=
